@@ -244,7 +244,8 @@ def run_deriv_case(case, rec, r):
             pool = [VectorFunction(f"w{j}", (t,)) for j in range(case["pool"])]
             by_id = sorted(pool, key=id)
             VF = [by_id[k] for k in case["rank"]]
-            V = [f(t) for f in VF]
+            scales = [sympy.Rational(k) for k in case.get("scales", ["1"] * nv)]
+            V = [f(k * t) for f, k in zip(VF, scales)]
             S = []
             for j in range(ns):
                 if j < nf:
@@ -258,7 +259,7 @@ def run_deriv_case(case, rec, r):
         rec.violation(f"deriv-timeout:order{case.get('order', 1)}:" + skeleton(tree), "differentiation did not terminate within 30 s", case)
         return
     except NotImplementedError as x:
-        rec.inconc("diff raises NotImplementedError", {"tree": tree, "err": str(x)})
+        rec.inconc("diff raises NotImplementedError" + (" (rescaled parameter)" if case.get("scales") else ""), {"tree": tree, "err": str(x)})
         return
     except Exception as x:  # pylint: disable=broad-except
         rec.violation(f"deriv-raises:{type(x).__name__}:order{case.get('order', 1)}:{skeleton(tree)}", f"diff raised {type(x).__name__}: {str(x)[:150]}", case)
@@ -287,6 +288,11 @@ def run_deriv_case(case, rec, r):
                 scoef.append(c)
             else:
                 scoef.append([mpmath.mpf(r.randint(500, 2000)) / 1000 * r.choice([-1, 1]), mpmath.mpf(0), mpmath.mpf(0)])
+        kk = [mpmath.mpf(k.p) / k.q for k in scales]
+        if case.get("scales"):
+            rec.hit("deriv_rescaled_parameter_returned")
+            # w_j(k t) with w_j a quadratic: the same quadratic in t with coefficients (c0, k c1, k^2 c2)
+            vcoef = [[[c[0], c[1] * kk[j], c[2] * kk[j] ** 2] for c in vcoef[j]] for j in range(nv)]
         for j in range(nv):
             env[V[j]] = tuple(pval(c, t0) for c in vcoef[j])
             env[(V[j], 1)] = tuple(c[1] + 2 * c[2] * t0 for c in vcoef[j])
@@ -318,6 +324,9 @@ def run_deriv_case(case, rec, r):
         except ZeroDivisionError:
             continue
         except vecsem.Uninterpretable as x:
+            if case.get("scales"):
+                rec.inconc("derivative of a rescaled-parameter function in a form the interpreter does not read")
+                return
             rec.violation(f"deriv-uninterpretable:{skeleton(tree)}", f"derivative has no R^3 meaning: {x}; {str(de)[:200]}", case)
             return
         good, d, sc = vecsem.close(want_d, got, tol=mpmath.mpf("1e-18") if order == 1 else mpmath.mpf("1e-12"))
@@ -357,6 +366,12 @@ def make_case(r, depth, deriv=False):
         case["mode"] = "diff"
         case["order"] = 2 if r.random() < 0.3 else 1
         case["names"] = None
+        # a share of the cases applies the vector functions to a rescaled parameter, w(k t): the library may decline these
+        # (NotImplementedError: inconclusive), but what it returns must be the derivative
+        if r.random() < 0.15:
+            case["scales"] = [r.choice(["1", "2", "-1", "1/2", "3"]) for _ in range(nv)]
+            if all(k == "1" for k in case["scales"]):
+                case["scales"][0] = "2"
     return case
 
 
